@@ -134,7 +134,21 @@ def search_property(pid, rep, replay=None):
     info = prove(pid, rep)
     profiles = ("release", "checked") if pid in ("C08", "C15") else ("release",)
     if not build_impl(rep, profiles=profiles, engine=(pid in ("C15", "C08", "C07"))):
-        proof_coverage(rep, info, {})
+        # the in-process harness no longer builds (a signature it uses changed): the tie is broken, but the real binary
+        # may still build — search IT for a failing input before reporting
+        from collections import Counter
+        st = Counter()
+        try:
+            core.cargo_engine()
+            if pid == "C07":
+                sessionchk.check_immediate_stop(rep, st)
+                sessionchk.check_stop_promptness(rep, st)
+            elif pid == "C08":
+                sessionchk.check_combined_limits(rep, "C08", st)
+                sessionchk.check_deep_tiny(rep, "C08", st)
+        except core.Broken:
+            pass
+        proof_coverage(rep, info, {"stats": dict(st)})
         return finish(rep, info)
     tier = rep.tier  # a broken tie enlarges only the cheap walk searches (bounded run time)
     if pid in ("C06", "C18"):
@@ -145,6 +159,7 @@ def search_property(pid, rep, replay=None):
     elif pid == "C07":
         stats, kinds, cases = searchchk.check_stop(rep, tier, rep.seed)
         sessionchk.check_stop_promptness(rep, stats)
+        sessionchk.check_immediate_stop(rep, stats)
         rule = "stop flag cleared after exactly N node-entry polls (hook), N sampled incl. 0, 1, last (quick) or every N (thorough); distinct = (position, N) pairs"
         distinct = stats.get("stop_points", 0)
     elif pid == "C08":
